@@ -66,6 +66,7 @@ def run_case(case, obs=None):
         buf = bytes(cmd.dataout)
         if obs is not None:
             obs.append(buf)
+            obs.append(cmd)
         h, pgs, problems = P.mode_list(buf, ten)
         for p in problems:
             out.append(("%s/length/%s" % (name, p.split(":")[0].split(" is ")[0][:30]), "%s: %s (list %s)" % (where, p, buf[:16].hex())))
@@ -104,6 +105,7 @@ def run_case(case, obs=None):
         buf = bytes(cmd.dataout)
         if obs is not None:
             obs.append(buf)
+            obs.append(cmd)
         if sa == 7:
             d, tid, problems = P.pr_out_move(buf)
             got_tids = [tid] if tid is not None else []
@@ -150,6 +152,7 @@ def run_case(case, obs=None):
         buf = bytes(cmd.dataout)
         if obs is not None:
             obs.append(buf)
+            obs.append(cmd)
         h, gc, gs, gi, problems = P.xcopy(buf, ver == 5)
         for p in problems:
             out.append(("xcopy%d/length/%s" % (ver, p.split(" ")[0][:20]), "%s: %s" % (where, p)))
@@ -344,6 +347,7 @@ NCHUNK = 4
 def run_partition(part, tier, seed):
     acc = Acc(seed)
     part, chunk = part
+    prev = None
     for n, case in enumerate(gen(part, tier)):
         if n % NCHUNK != chunk:
             continue
@@ -353,6 +357,10 @@ def run_partition(part, tier, seed):
         except Exception:
             import traceback
             v = [("harness_error/%s" % case[0], traceback.format_exc()[-700:])]
+        # the previously built command must still carry its own list and CDB (no buffer shared between commands)
+        if prev is not None and (bytes(prev[0].dataout) != prev[1] or bytes(prev[0].cdb) != prev[2]):
+            v.append(("%s/earlier_command_changed" % case[0], "building %r changed the data-out or CDB of the command built before it" % (case,)))
+        prev = (obs[1], obs[0], bytes(obs[1].cdb)) if len(obs) > 1 else None
         acc.case(case, nontrivial=True, key=repr(case))
         for kk, w in v:
             acc.violation(kk, w, case)
